@@ -11,16 +11,20 @@
              handler's Response record, the user's attributes, ...): the builder programs go2v translates from
              response.go / logout_response.go / attributes.go, interpreted and marshalled with the generated schema, must
              yield the same document up to the signature elements the signer adds afterwards (identifiers from NewID()
-             and the clock's two instants are read off the document). *)
-From Saml Require Import Base.Bytes Codec.Base64 Codec.XmlEscape Xml.Tree Xml.Lex Xml.Balanced Gen.Facts Core.WireCodec Xml.SchemaTypes Xml.Schema Gen.Schema Idp.BuilderTypes Idp.Builder Idp.BuiltDoc.
+             and the clock's two instants are read off the document);
+    KUnm   : a document (as the element tree Go's decoder resolves, an oracle) with what a library decoder made of it (the
+             decoded struct as a generic value, or an error): the schema-driven model of Unmarshal (Xml/Unmarshal.v) must
+             produce the same value / refuse as well; trailing content is unmarshalDocument's rule. *)
+From Saml Require Import Base.Bytes Codec.Base64 Codec.XmlEscape Xml.Tree Xml.Lex Xml.Balanced Gen.Facts Core.WireCodec Xml.SchemaTypes Xml.Schema Gen.Schema Idp.BuilderTypes Idp.Builder Idp.BuiltDoc Xml.Unmarshal.
 Inductive c18case :=
 | KDoc (id : Z) (header : bool) (t : xml) (doc : bytes)
 | KCodec (id : Z) (encoding : bytes) (b64 : bool) (msg : bytes) (inflated : option bytes) (obs : option bytes)
 | KEnc (id : Z) (deflated out : bytes) (back : option bytes)
 | KEsc (id : Z) (s escaped : bytes)
 | KStruct (id : Z) (ty : string) (v : gval) (doc : bytes)
-| KBuilt (id : Z) (fn : string) (recv : option dval) (args : list dval) (fresh : list bytes) (issue until : bytes) (root : string) (obs : xml).
-Definition c18_id (c : c18case) : Z := match c with KDoc i _ _ _ | KCodec i _ _ _ _ _ | KEnc i _ _ _ | KEsc i _ _ | KStruct i _ _ _ | KBuilt i _ _ _ _ _ _ _ _ => i end.
+| KBuilt (id : Z) (fn : string) (recv : option dval) (args : list dval) (fresh : list bytes) (issue until : bytes) (root : string) (obs : xml)
+| KUnm (id : Z) (ty : string) (trailing : bool) (doc : rnode) (obs : option gval).
+Definition c18_id (c : c18case) : Z := match c with KDoc i _ _ _ | KCodec i _ _ _ _ _ | KEnc i _ _ _ | KEsc i _ _ | KStruct i _ _ _ | KBuilt i _ _ _ _ _ _ _ _ | KUnm i _ _ _ _ => i end.
 Definition c18_ok (c : c18case) : bool :=
   match c with
   | KDoc _ h t doc => wfb t && beq (if h then marshal_doc t else marshal t) doc
@@ -29,5 +33,6 @@ Definition c18_ok (c : c18case) : bool :=
   | KEsc _ s e => beq (xml_escape s) e
   | KStruct _ ty v doc => option_eqb beq (marshal_struct_doc xml_schema ty v) (Some doc)
   | KBuilt _ fn recv args fresh issue until root obs => built_matches fn recv args fresh issue until root obs
+  | KUnm _ ty trailing doc obs => option_eqb gval_eqb (if trailing then None else unmarshal_root xml_schema ty doc) obs
   end.
 Definition c18_bad (cs : list c18case) : list Z := map c18_id (filter (fun c => negb (c18_ok c)) cs).
